@@ -276,6 +276,11 @@ class BaseEMSurvey(ObjectBase, ABC):  # pylint: disable=too-many-public-methods
         clear_cache: bool = False,
         mask: np.ndarray | None = None,
     ):
+        if mask is not None and len(mask) != getattr(
+            self.complement, "n_vertices", None
+        ):
+            mask = None  # the complement is not sampled like this entity (e.g. one base station)
+
         new_complement = self.complement._super_copy(  # pylint: disable=protected-access
             parent=parent,
             copy_children=copy_children,
